@@ -52,12 +52,14 @@ MANIFEST = dict(
          "typemap conversion patterns mapped to op codes by an explicit pattern table; an unmapped line is written as op 99, reported as a broken tie and breaks the table theorems, then the oracle searches). (D) real "
          "lookup_fc_stmts vs lookupStmts over the whole key domain plus random paths; real generate_functions+Wrapc vs assembleC "
          "(driver drv_wrapc) for every C-wrapped function of generated C++ libraries and the C++ corpus: matched statement names, "
-         "prototype, call list, `this` set-up, call/return shape; C names versus the documented naming rule computed from the "
+         "prototype, call list, the conversion that creates each argument's C++ local (std::string construction, capsule address, "
+         "struct / enum pointer cast, enum value cast), `this` set-up, call/return shape; C names versus the documented naming rule computed from the "
          "description (overload position, explicit function_suffix, default_arg_suffix, template_suffix, class-template instance "
          "scope). Oracle (implementation only): instrumented C++ subject library + C driver calling only the generated headers' "
          "functions under their documented names with boundary values, g++/gcc -fsanitize=address,undefined, trace compared with "
          "expectations computed from the declarations: overload sets with explicit suffixes on any subset (free, method, ctor), "
-         "default arguments with default_arg_suffix lists, function templates with 1-3 type parameters and permuted instantiations, "
+         "default arguments with default_arg_suffix lists and with literals that are falsy in Python (0, 0.0, false; also as the "
+         "only defaults of a function), enums declared globally, in a namespace and in a class passed by value / pointer / reference, function templates with 1-3 type parameters and permuted instantiations, "
          "class templates, const/static methods, ctor/dtor (handle NULL and idtor unchanged after dtor), class results by "
          "pointer/reference/value, struct arguments on methods and in namespaces, enum by pointer/reference, callbacks, char **, "
          "void **, customised C_prefix and C_name_template; overload-resolution observations (wrapped overload sets on std::string "
@@ -304,6 +306,31 @@ def classify_call(code, fmt):
     return "plain"
 
 
+def classify_conversion(lines, cxx_var, c_var):
+    """shape of the line that declares the C++ local of one argument, in the model's vocabulary"""
+    cv, xv = re.escape(c_var), re.escape(cxx_var)
+    for l in lines:
+        l = " ".join(l.split())
+        if not re.search(r"(^|[\s*&])%s(\s*=|\(|;)" % xv, l):
+            continue
+        if re.search(r"std::string\s+%s\(%s\)" % (xv, cv), l):
+            return "strFromC"
+        if re.search(r"std::string\s+%s;" % xv, l):
+            return "strEmpty"
+        if re.search(r"%s->addr" % cv, l):
+            return "capsP"
+        if re.search(r"%s\.addr" % cv, l):
+            return "capsV"
+        if re.search(r"static_cast<(const )?void \*>\(\s*&%s\)" % cv, l):
+            return "structA"
+        if re.search(r"static_cast<(const )?void \*>\(\s*%s\)" % cv, l):
+            return "structP"
+        if re.search(r"=\s*static_cast<[^<>]*[^*\s]>\(%s\)" % cv, l):
+            return "castEnum"
+        return "other"
+    return None
+
+
 def check_library(ctx, lib, bodies, snaps, it, xc, names, tag, reqs, meta, language):
     """Collect driver requests + the real observations for every wrapped function."""
     if language != "cxx":
@@ -379,6 +406,17 @@ def compare(ctx, reply, cls, node, body, names, bad, tag, stats):
     # body shape (plain API only; a forced splicer replaces the body)
     if body is not None and plain:
         setup, code = body
+        if code is not None and not has_local:
+            # the conversion that creates each argument's C++ local, as the model predicts it
+            for arg, m in zip(ast.params, margs):
+                toks = [t for t in lst(m["pre"]) if not t.startswith("other")]
+                if len(toks) != 1 or len(lst(m["pre"])) != 1:
+                    continue
+                fa = node._fmtargs[arg.name]["fmtc"]
+                real_conv = classify_conversion(code, fa.cxx_var, fa.c_var)
+                stats["conv:%s" % real_conv] = stats.get("conv:%s" % real_conv, 0) + 1
+                if real_conv != toks[0]:
+                    note("conversion of argument %s" % arg.name, real_conv, toks[0])
         this_real = "-"
         for l in setup:
             if fmt.CXX_this in l:
@@ -416,7 +454,7 @@ MODE = {"val": "scalar", "ptr": "*", "ref": "&", "pp": "**", "pr": "*&"}
 def sig_of(p, tm):
     if p.fam in ("cstrarr", "voidarr"):
         return (TM_NAME[p.fam], "**", False)
-    return ((tm.get(p.t, p.t).replace(" ", "_")) if p.fam in ("native", "class") else TM_NAME[p.fam], MODE[p.mode], bool(p.const))
+    return ((tm.get(p.t, p.t).replace(" ", "_")) if p.fam in ("native", "class", "enum") else TM_NAME[p.fam], MODE[p.mode], bool(p.const))
 
 
 def documented_names(spec):
